@@ -106,6 +106,12 @@ func (t *ProcessorTask) Do(ctx context.Context, b *Batch) error {
 	if len(recsOut) == 0 {
 		return cerrors.Errorf("processor didn't return any records")
 	}
+	if len(recsOut) > len(recsIn) {
+		// A processor must return at most one result per record it was given.
+		// Surplus results cannot be attributed to any record in the batch (and
+		// would index past it), so stop instead of guessing.
+		return cerrors.Errorf("processor returned %d records, but was given only %d", len(recsOut), len(recsIn))
+	}
 	t.metrics.Observe(len(recsOut), start)
 
 	if len(recsIn) > len(recsOut) {
